@@ -121,6 +121,20 @@ CHECKS = {
         note=(TB_COMMON + "Energy polynomials and log2 are float64 functions of qenergy; entries are compared with an independent float64 "
               "recomputation (a test), sums exactly. QTools(model) is not constructible under the pinned Keras, so layer maps are synthetic."),
         technique="Coq proof (loop-nest cardinality, QArith sums) + differential correspondence on real layers"),
+    "C09": dict(
+        category="proof",
+        text=("Coq theorems (Properties/C09.v): for every class description (parameters with defaults, emitted keys) and ALL option values, "
+              "from_config(get_config(o)) succeeds iff every key is a constructor parameter, agrees with o on every emitted parameter and has "
+              "the default elsewhere, hence computes the same function when every semantic parameter is emitted. The class table is "
+              "REGENERATED from /repo/qkeras/quantizers.py on every run by a fail-closed Python-ast translator and the finite obligations "
+              "(all 14 classes accept their own config; every function-changing constructor option is a get_config key; registry by class "
+              "name) are re-proved by vm_compute. Correspondence: every class over its option lattice through from_config, keras "
+              "serialize/deserialize and get_quantizer(dict), outputs and scales compared bitwise. One genuine defect repaired (fix: commit)."),
+        design_ref="DESIGN.md section 5 C09, section 10",
+        note=(TB_COMMON + "Translator tools/translate/qmeta.py (about 200 lines, Python ast) is trusted to extract constructor parameters and "
+              "get_config keys; unknown shapes make it emit translation_ok = false. Which parameters are semantic is a hand-written table "
+              "(all but var_name, use_variables, use_ste). get_quantizer(dict) is broken under the pinned Keras 3 (known finding)."),
+        technique="Coq proof (generic record round trip) + model regenerated from source by a translator + differential correspondence"),
 }
 
 NOT_YET = "check not built yet in this development (design in DESIGN.md section 5); not a claim that proof is inapplicable"
